@@ -382,7 +382,9 @@ func (c *contentValidator) ValidateRequestAccept(ch *aclrecordproto.AclAccountRe
 		return ErrInsufficientPermissions
 	}
 	record, exists := c.aclState.requestRecords[ch.RequestRecordId]
-	if !exists {
+	if !exists || record.Type != RequestTypeJoin {
+		// only a join request can be accepted: a pending removal request must not
+		// become a way to re-permission its author
 		return ErrNoSuchRequest
 	}
 	acceptIdentity, err := c.keyStore.PubKeyFromProto(ch.Identity)
